@@ -13,6 +13,8 @@ against Visit.tla.  Corrupted logs must be rejected (binding demonstration).
 """
 from __future__ import annotations
 
+import json
+
 import copy
 
 from . import common, parsecommon as pc
@@ -107,6 +109,8 @@ class VisitConsumer(Consumer):
     def __init__(self, payload):
         super().__init__(payload)
         self.traces = []
+        self.seen = set()       # a log is a pure structure (ids, callbacks, results): equal logs get equal verdicts,
+                                # so each distinct log is kept (and judged by TLC) once, with the first input that produced it
 
     def feed(self, rec):
         self.n += 1
@@ -129,7 +133,12 @@ class VisitConsumer(Consumer):
             self.counters['events'] += len(val['ev'])
             if len(val['tab']) >= 4:
                 self.nontrivial += 1
-            self.traces.append((case, val))
+            key = hash(json.dumps(val, sort_keys=True))
+            if key in self.seen:
+                self.counters['logs_equal_to_an_earlier_one'] += 1
+            else:
+                self.seen.add(key)
+                self.traces.append((case, val))
         self.sample(dict(s=s, ctx=ctx), every=4999)
 
     def result(self):
@@ -161,8 +170,13 @@ def run(ctx):
         m = common.run_shards(ctx, ('harness.c19', 'VisitConsumer'), jobs, what='ParseRun %s %s (documents for visitor logs)' % (cname, pc.kdesc(K)))
         ctx.add_merged(m, validated=False)
         items = []
+        seen = set()
         for ex in m['extra']:
-            items.extend(ex.get('traces', []))
+            for it in ex.get('traces', []):
+                key = hash(json.dumps(it[1], sort_keys=True))
+                if key not in seen:
+                    seen.add(key)
+                    items.append(it)
         ctx.log('%s %s: %d strings, %d visitor logs, %d callbacks' % (cname, pc.kdesc(K), m['n'], len(items), m['counters'].get('events', 0)))
         flags, diags = common.validate_traces(ctx, 'Visit', [it[1] for it in items], what='C->S Visit acceptor', chunk=40000)
         ctx.traces_validated += len(items)
